@@ -267,6 +267,27 @@ var battery = []sequence{
 		tx.ProcessLogging()
 	}},
 	{"no-calls", func(tx types.Transaction) {}},
+	// Close in a non-final position: whatever a connector calls afterwards returns normally
+	{"calls-after-close", func(tx types.Transaction) {
+		reqHead(tx, "POST", "/p?k=1", ctForm)
+		tx.ProcessRequestHeaders()
+		_ = tx.Close()
+		_, _, _ = tx.WriteRequestBody([]byte("k=1&b=zzz"))
+		_, _ = tx.ProcessRequestBody()
+		tx.AddResponseHeader("Content-Type", "text/plain")
+		tx.ProcessResponseHeaders(200, "HTTP/1.1")
+		_, _, _ = tx.WriteResponseBody([]byte("resp k zzz"))
+		_, _ = tx.ProcessResponseBody()
+		tx.ProcessLogging()
+		_ = tx.Close()
+		tx.ProcessLogging()
+	}},
+	{"close-first", func(tx types.Transaction) {
+		_ = tx.Close()
+		exchange(tx, "POST", "/p?k=1", ctForm, "k=1&b=zzz", 200, "text/plain", "resp k zzz")
+		_ = tx.Close()
+		exchange(tx, "GET", uriGet, "", "", 404, "text/plain", "k")
+	}},
 	// values around the sizes at which log fields are cut (200..512 bytes), made of bytes on which a
 	// "do not split a character" cut has nowhere to stop: UTF-8 continuation bytes only, and a two-byte
 	// character straddling every even / odd offset
@@ -292,7 +313,7 @@ var battery = []sequence{
 }
 
 // quickBattery: indexes of the sequences the quick tier runs.
-var quickBattery = []int{0, 1, 4, 6, 7, 9, 10, 11, 12, 14, 18}
+var quickBattery = []int{0, 1, 4, 6, 7, 9, 10, 11, 12, 14, 18, 19, 20}
 
 // observe reads everything a connector reads from a finished transaction.
 func observe(tx types.Transaction) string {
